@@ -21,7 +21,7 @@ RULE = ("3-5 callees with 1-3 borrowed parameters of types array[int,3], struct{
         "int}, qubit, plus an int; bodies of 2-5 ops: element assignment / augmented assignment, "
         "field-array element assignment, X, CX, loops, conditionals, calls to earlier callees "
         "(re-lending own parameters and fields); caller performs 4-8 calls lending variables, s.xs, "
-        "t[k], m[k], qs[k] with distinct initial contents and reports all state. distinct = distinct "
+        "t[k], m[k], m3[i][j] (also with a stateful row index), whole tuples of arrays, qs[k] with distinct initial contents and reports all state. distinct = distinct "
         "(callee op kinds, lent place kinds) sequences")
 FLOORS = {"programs_emulated": 10, "borrowing_calls": 50}
 
@@ -33,6 +33,11 @@ from guppylang.std.quantum import qubit, x, cx, measure, discard
 class S:
     xs: array[int, 3]
     k: int
+
+@guppy
+def tick(c: array[int, 1]) -> int:
+    c[0] += 1
+    return (c[0] - 1) % 2
 
 '''
 
@@ -85,15 +90,17 @@ class G:
     def callee(self, k):
         r = self.r
         nparams = r.randint(1, 3)
-        pool = ["A", "A", "S", "Q", "Q"]
+        pool = ["A", "A", "S", "Q", "Q", "T"]
         tys = sorted(r.sample(pool, nparams))
         params = []
         for i, t in enumerate(tys):
             params.append((f"{t.lower()}{i}", t))
-        sig = ", ".join(f"{n}: " + {"A": "array[int, 3]", "S": "S", "Q": "qubit"}[t] for n, t in params)
+        sig = ", ".join(f"{n}: " + {"A": "array[int, 3]", "S": "S", "Q": "qubit",
+                                   "T": "tuple[array[int, 3], array[int, 3]]"}[t] for n, t in params)
         name = f"cal{k}"
         lines = [f"@guppy\ndef {name}({sig}, v: int) -> None:"]
-        arr_places = [n for n, t in params if t == "A"] + [f"{n}.xs" for n, t in params if t == "S"]
+        arr_places = [n for n, t in params if t == "A"] + [f"{n}.xs" for n, t in params if t == "S"] + \
+            [f"{n}[{j}]" for n, t in params if t == "T" for j in (0, 1)]
         qs = [n for n, t in params if t == "Q"]
         kinds = []
         for _ in range(r.randint(2, 5)):
@@ -125,7 +132,7 @@ class G:
             elif c >= 6 and self.callees:
                 cal = r.choice(self.callees)
                 args = self.pick_args(cal[1], {"A": arr_places, "S": [n for n, t in params if t == "S"],
-                                               "Q": qs})
+                                               "Q": qs, "T": [n for n, t in params if t == "T"]})
                 if args is not None:
                     lines.append(f"    {cal[0]}({', '.join(args)}, {self.int_expr([], 0)})")
                     kinds.append("relend")
@@ -154,7 +161,8 @@ class G:
 
     def main(self):
         r = self.r
-        primes = [2, 3, 5, 7, 11, 13, 17, 19, 23, 29, 31, 37, 41, 43, 47, 53, 59, 61, 67, 71, 73]
+        primes = [2, 3, 5, 7, 11, 13, 17, 19, 23, 29, 31, 37, 41, 43, 47, 53, 59, 61, 67, 71, 73, 79, 83, 89,
+                  97, 101, 103, 107, 109, 113, 127, 131, 137, 139, 149, 151, 157, 163, 167, 173, 179, 181]
         r.shuffle(primes)
         it = iter(primes)
 
@@ -166,9 +174,13 @@ class G:
                  f"    s0 = S({arr()}, 5)",
                  f"    t0 = ({arr()}, {arr()})",
                  f"    m0 = array({arr()}, {arr()})",
+                 f"    t1 = ({arr()}, {arr()})",
+                 f"    m3 = array(array({arr()}, {arr()}), array({arr()}, {arr()}))",
+                 "    ctr = array(0)",
                  "    q0 = qubit()", "    q1 = qubit()", "    qs = array(qubit(), qubit())"]
-        avail = {"A": ["a0", "a1", "s0.xs", "t0[0]", "t0[1]", "m0[0]", "m0[1]"], "S": ["s0"],
-                 "Q": ["q0", "q1", "qs[0]", "qs[1]"]}
+        avail = {"A": ["a0", "a1", "s0.xs", "t0[0]", "t0[1]", "m0[0]", "m0[1]", "t1[0]", "m3[0][1]", "m3[1][0]",
+                       "m3[tick(ctr)][0]", "m3[tick(ctr)][1]"], "S": ["s0"],
+                 "Q": ["q0", "q1", "qs[0]", "qs[1]"], "T": ["t0", "t1", "t1"]}
         lent = []
         for _ in range(r.randint(4, 8)):
             cal = r.choice(self.callees)
@@ -177,12 +189,17 @@ class G:
                 continue
             lines.append(f"    {cal[0]}({', '.join(args)}, {r.randint(1, 9)})")
             self.ncalls += 1
-            lent += [("elem" if "[" in a else "field" if "." in a else "var") for a in args]
+            lent += [("nested-elem-stateful-index" if "tick" in a else "nested-elem" if a.count("[") == 2 else
+                      "elem" if "[" in a else "field" if "." in a else
+                      "whole-tuple" if a.startswith("t") else "var") for a in args]
         for v in ("a0", "a1"):
             lines.append(f'    result("{v}", {v})')
         lines += ['    result("s0xs", s0.xs)', '    result("s0k", s0.k)',
                   '    result("t00", t0[0])', '    result("t01", t0[1])',
                   '    result("m00", m0[0])', '    result("m01", m0[1])',
+                  '    result("t10", t1[0])', '    result("t11", t1[1])',
+                  '    result("m300", m3[0][0])', '    result("m301", m3[0][1])',
+                  '    result("m310", m3[1][0])', '    result("m311", m3[1][1])', '    result("ctr", ctr[0])',
                   '    result("q0", measure(q0))', '    result("q1", measure(q1))',
                   "    qa, qb = qs", '    result("qs0", measure(qa))', '    result("qs1", measure(qb))']
         self.lent = lent
